@@ -167,6 +167,10 @@ func (C12) Generate(c *Ctx, r *Rand, index int) *Scenario {
 	if !sc.TmpOther && c.W.Strace != "" && rs.Chance(1, straceOdds) {
 		sc.Strace = "renameat:error=" + Pick(rs, []string{"EBUSY", "EACCES", "EXDEV", "EPERM"})
 	}
+	if frontMatter && sc.Strace == "" && c.W.Strace != "" && rs.Chance(1, 4) {
+		// the front matter is copied to a temp file of its own before anything else is written
+		sc.Strace = "write:error=" + Pick(rs, []string{"ENOSPC", "EIO"}) + ":when=" + strconv.Itoa(rs.Range(1, 4))
+	}
 	if sc.Strace == "" && c.W.Strace != "" && rs.Chance(1, straceOdds) {
 		// faults at system calls that have no hook in front of them
 		sc.Strace = Pick(rs, []string{
